@@ -399,15 +399,106 @@ theorem vm_wrap (body : Nat → PyVal × PyVal × Bool → PyTok.TM (ForInStep (
   | error e =>
     cases e <;> simp only [hv] at key ⊢ <;> simp only [run_bind, key, err_bind]
 
-theorem version_many_fuel (F : Nat) (s : PyTok.St) (m : Mk.St) (h : TokRel s m) (f : Nat) (hf : f ≤ F + 1) :
-    AgreesR PyVal.str (Gen.PySrc._parse_version_many__fuel (F + 1)) s (Req.versionMany f [] m) := by
-  simp only [Gen.PySrc._parse_version_many__fuel]
-  refine vm_wrap _ ?step _ ?tail F s m h f hf
+/-! x8: the same loop with the accumulated text held in any representation `Rep value text` (a `str` built with `+=`, or a
+list of pieces joined after the loop) -/
+
+def VmStepG (Rep : PyVal → Str → Prop)
+    (body : Nat → PyVal × PyVal × Bool → PyTok.TM (ForInStep (PyVal × PyVal × Bool))) : Prop :=
+  ∀ (i : Nat) (sp av : PyVal) (acc : Str) (s : PyTok.St) (m : Mk.St), Rep av acc → TokRel s m →
+    match Req.checkR .specifier m with
+    | none => (body i (sp, av, false)).run s = .ok (.done (sp, av, true), s)
+    | some (t, m1) =>
+      if Req.peekR .prefixTrail m1 = true ∨ Req.peekR .localTrail m1 = true then
+        (body i (sp, av, false)).run s = .error "ParserSyntaxError"
+      else match Req.checkR .comma (Req.ws m1) with
+        | none => ∃ s' sp' av', (body i (sp, av, false)).run s = .ok (.done (sp', av', true), s') ∧
+            Rep av' (acc ++ t) ∧ TokRel s' (Req.ws m1)
+        | some (c, m2) => ∃ s' sp' av', (body i (sp, av, false)).run s = .ok (.yield (sp', av', false), s') ∧
+            Rep av' (acc ++ t ++ c) ∧ TokRel s' (Req.ws m2)
+
+theorem vm_loopG (Rep : PyVal → Str → Prop)
+    (body : Nat → PyVal × PyVal × Bool → PyTok.TM (ForInStep (PyVal × PyVal × Bool))) (hb : VmStepG Rep body) :
+    ∀ (f : Nat) (l : List Nat) (sp av : PyVal) (acc : Str) (s : PyTok.St) (m : Mk.St), f ≤ l.length → Rep av acc → TokRel s m →
+    match Req.versionMany f acc m with
+    | .ok (a, m') => ∃ s' sp' av', (forIn l (sp, av, false) body).run s = .ok ((sp', av', true), s') ∧ Rep av' a ∧ TokRel s' m'
+    | .error .fuel => True
+    | .error _ => (forIn l (sp, av, false) body).run s = .error "ParserSyntaxError" := by
+  intro f
+  induction f with
+  | zero => intro l sp av acc s m _ _ _; simp [Req.versionMany]
+  | succ f ih =>
+    intro l sp av acc s m hl hrep h
+    cases l with
+    | nil => simp at hl
+    | cons x xs =>
+      have hstep := hb x sp av acc s m hrep h
+      simp only [Req.versionMany, run_forIn_cons]
+      cases h1 : Req.checkR .specifier m with
+      | none =>
+        simp only [h1] at hstep ⊢
+        exact ⟨s, sp, av, by simp only [hstep, ok_bind], hrep, h⟩
+      | some v =>
+        obtain ⟨t, m1⟩ := v
+        simp only [h1] at hstep ⊢
+        by_cases hp1 : Req.peekR .prefixTrail m1 = true
+        · simp only [hp1, true_or, if_true] at hstep ⊢
+          simp only [hstep, err_bind]
+        · by_cases hp2 : Req.peekR .localTrail m1 = true
+          · simp only [hp2, or_true, if_true] at hstep
+            simp only [hp1, hp2, if_true, hstep, err_bind]; simp
+          · simp only [hp1, hp2, or_self] at hstep
+            simp only [hp1, hp2]
+            cases h2 : Req.checkR .comma (Req.ws m1) with
+            | none =>
+              simp only [h2] at hstep ⊢
+              obtain ⟨s', sp', av', e, hr, r⟩ := hstep
+              exact ⟨s', sp', av', by simp only [e, ok_bind], hr, r⟩
+            | some w =>
+              obtain ⟨c, m2⟩ := w
+              simp only [h2] at hstep ⊢
+              obtain ⟨s', sp', av', e, hr, r⟩ := hstep
+              have := ih xs sp' av' (acc ++ t ++ c) s' (Req.ws m2) (by simpa using hl) hr r
+              simp only [e, ok_bind]
+              exact this
+
+theorem vm_wrapG (Rep : PyVal → Str → Prop)
+    (body : Nat → PyVal × PyVal × Bool → PyTok.TM (ForInStep (PyVal × PyVal × Bool))) (hb : VmStepG Rep body)
+    (tail : PyVal × PyVal × Bool → PyTok.TM PyVal) (init : PyVal) (hinit : Rep init [])
+    (htail : ∀ sp av a s, Rep av a → (tail (sp, av, true)).run s = .ok (.str a, s))
+    (F : Nat) (s : PyTok.St) (m : Mk.St) (h : TokRel s m) (f : Nat) (hf : f ≤ F + 1) :
+    AgreesR PyVal.str (forIn (List.range (F + 1)) (PyVal.unbound, init, false) body >>= tail) s
+      (Req.versionMany f [] m) := by
+  have key := vm_loopG Rep body hb f (List.range (F + 1)) .unbound init [] s m (by simpa using hf) hinit h
+  rw [agreesR_iff]
+  cases hv : Req.versionMany f [] m with
+  | ok v =>
+    obtain ⟨a, m'⟩ := v
+    simp only [hv] at key ⊢
+    obtain ⟨s', sp', av', e, hr, r⟩ := key
+    exact ⟨s', by simp only [run_bind, e, ok_bind, htail _ _ _ _ hr], r⟩
+  | error e =>
+    cases e <;> simp only [hv] at key ⊢ <;> simp only [run_bind, key, err_bind]
+
+/-- the two representations: the text itself / a list of pieces whose concatenation it is -/
+def RepStr (v : PyVal) (a : Str) : Prop := v = .str a
+def RepPieces (v : PyVal) (a : Str) : Prop := ∃ ps : List Str, v = .list (ps.map .str) ∧ ps.flatten = a
+
+theorem repPieces_snoc {v : PyVal} {a t : Str} (h : RepPieces v a) :
+    ∃ ps : List Str, v = .list (ps.map .str) ∧ RepPieces (.list (ps.map .str ++ [.str t])) (a ++ t) := by
+  obtain ⟨ps, rfl, rfl⟩ := h
+  exact ⟨ps, rfl, ps ++ [t], by simp, by simp⟩
+
+set_option hygiene false in
+/-- `_parse_version_many__fuel` for the representation `Rep`; `open_rep` exposes the value of the accumulator, `close_rep`
+proves the representation of the extended accumulator -/
+local macro "version_many_with " rep:term ", " hinit:term ", " open_rep:tacticSeq ", " close_rep:tacticSeq ", " tl:tacticSeq : tactic => `(tactic| (
+  refine vm_wrapG $rep _ ?step _ _ $hinit ?tail F s m h f hf
   case tail =>
-    intro sp a s
-    simp
+    intro sp av a s hrep
+    ($tl)
   case step =>
-    intro i sp acc s m h
+    intro i sp av acc s m hrep h
+    ($open_rep)
     simp only [chk_req, peekR_chk]
     cases h1 : chk (.req .specifier) m with
     | none =>
@@ -423,14 +514,23 @@ theorem version_many_fuel (F : Nat) (s : PyTok.St) (m : Mk.St) (h : TokRel s m) 
           cases h2 : chk (.req .comma) (Req.ws m1) with
           | none =>
             tm_simp [check_none r2 rule_COMMA h2]
-            exact ⟨_, _, rfl, r2⟩
+            exact ⟨_, _, _, rfl, by $close_rep, r2⟩
           | some w =>
             obtain ⟨c, m2⟩ := w
             obtain ⟨s3, e3, r3⟩ := consume_ws (adv_rel r2 h2)
             tm_simp [check_some r2 rule_COMMA h2, e3]
-            exact ⟨_, _, rfl, r3⟩
+            exact ⟨_, _, _, rfl, by $close_rep, r3⟩
         · tm_simp []
-      · tm_simp []
+      · tm_simp []))
+
+theorem version_many_fuel (F : Nat) (s : PyTok.St) (m : Mk.St) (h : TokRel s m) (f : Nat) (hf : f ≤ F + 1) :
+    AgreesR PyVal.str (Gen.PySrc._parse_version_many__fuel (F + 1)) s (Req.versionMany f [] m) := by
+  simp only [Gen.PySrc._parse_version_many__fuel]
+  first
+  | version_many_with RepStr, rfl, (cases hrep), (rfl), (cases hrep; simp)
+  | version_many_with RepPieces, ⟨[], rfl, rfl⟩, (obtain ⟨ps, rfl, rfl⟩ := hrep),
+      (first | exact ⟨_, by simp, by simp⟩ | exact ⟨ps ++ [t] ++ [c], by simp, by simp⟩ | exact ⟨ps ++ [t], by simp, by simp⟩),
+      (obtain ⟨ps, rfl, rfl⟩ := hrep; simp [str_join_list, join_nil, show ofString "" = [] from rfl])
 
 
 theorem agreesR_congr {α} {view : α → PyVal} {x y : PyTok.TM PyVal} {s : PyTok.St} {r : Req.Res (α × Mk.St)}
@@ -670,6 +770,112 @@ theorem el_wrap (body : Nat → PyVal × PyVal × Bool → PyTok.TM (ForInStep (
     cases e <;> simp only [hv] at key ⊢ <;> simp only [key, err_bind]
 
 
+/-! x8: the same loop over any loop state: `Inv st acc` while running with the extras `acc`, `Fin st a` once left with `a`
+(a `done` flag set by `break`, or the slot of an early `return extras`) -/
+
+def ElStepG {σ : Type} (Inv Fin : σ → List Str → Prop) (body : Nat → σ → PyTok.TM (ForInStep σ)) : Prop :=
+  ∀ (i : Nat) (st : σ) (acc : List Str) (s : PyTok.St) (m : Mk.St), Inv st acc → TokRel s m →
+    if Req.peekR .identifier (Req.ws m) = true then (body i st).run s = .error "ParserSyntaxError"
+    else match Req.checkR .comma (Req.ws m) with
+      | none => ∃ s' st', (body i st).run s = .ok (.done st', s') ∧ Fin st' acc ∧ TokRel s' (Req.ws m)
+      | some (_, m2) =>
+        match Req.checkR .identifier (Req.ws m2) with
+        | none => (body i st).run s = .error "ParserSyntaxError"
+        | some (t, m3) => ∃ s' st', (body i st).run s = .ok (.yield st', s') ∧ Inv st' (acc ++ [t]) ∧ TokRel s' m3
+
+theorem el_loopG {σ : Type} (Inv Fin : σ → List Str → Prop) (body : Nat → σ → PyTok.TM (ForInStep σ))
+    (hb : ElStepG Inv Fin body) :
+    ∀ (f : Nat) (l : List Nat) (st : σ) (acc : List Str) (s : PyTok.St) (m : Mk.St), f ≤ l.length → Inv st acc → TokRel s m →
+    match Req.extrasLoop f acc m with
+    | .ok (a, m') => ∃ s' st', (forIn l st body).run s = .ok (st', s') ∧ Fin st' a ∧ TokRel s' m'
+    | .error .fuel => True
+    | .error _ => (forIn l st body).run s = .error "ParserSyntaxError" := by
+  intro f
+  induction f with
+  | zero => intro l st acc s m _ _ _; simp [Req.extrasLoop]
+  | succ f ih =>
+    intro l st acc s m hl hinv h
+    cases l with
+    | nil => simp at hl
+    | cons x xs =>
+      have hstep := hb x st acc s m hinv h
+      simp only [Req.extrasLoop, run_forIn_cons]
+      cases hp : Req.peekR .identifier (Req.ws m)
+      case true =>
+        simp only [hp, if_true] at hstep ⊢
+        simp only [hstep, err_bind]
+      case false =>
+        simp only [hp, Bool.false_eq_true, if_false] at hstep ⊢
+        cases h2 : Req.checkR .comma (Req.ws m) with
+        | none =>
+          simp only [h2] at hstep ⊢
+          obtain ⟨s', st', e, hfin, r⟩ := hstep
+          exact ⟨s', st', by simp only [e, ok_bind], hfin, r⟩
+        | some w =>
+          obtain ⟨c, m2⟩ := w
+          simp only [h2] at hstep ⊢
+          cases h3 : Req.checkR .identifier (Req.ws m2) with
+          | none =>
+            simp only [h3] at hstep ⊢
+            simp only [hstep, err_bind]
+          | some u =>
+            obtain ⟨t, m3⟩ := u
+            simp only [h3] at hstep ⊢
+            obtain ⟨s', st', e, hinv', r⟩ := hstep
+            have := ih xs st' (acc ++ [t]) s' m3 (by simpa using hl) hinv' r
+            simp only [e, ok_bind]
+            exact this
+
+theorem el_wrapG {σ : Type} (Inv Fin : σ → List Str → Prop) (body : Nat → σ → PyTok.TM (ForInStep σ))
+    (hb : ElStepG Inv Fin body) (K : σ × PyTok.St → M (PyVal × PyTok.St))
+    (hK : ∀ st a s, Fin st a → K (st, s) = .ok (strs a, s))
+    (f : Nat) (l : List Nat) (st : σ) (acc : List Str) (s : PyTok.St) (m : Mk.St) (hl : f ≤ l.length) (hinv : Inv st acc)
+    (h : TokRel s m) :
+    AgreesRun strs ((forIn l st body).run s >>= K) (Req.extrasLoop f acc m) := by
+  have key := el_loopG Inv Fin body hb f l st acc s m hl hinv h
+  unfold AgreesRun
+  cases hv : Req.extrasLoop f acc m with
+  | ok v =>
+    obtain ⟨a, m'⟩ := v
+    simp only [hv] at key ⊢
+    obtain ⟨s', st', e, hfin, r⟩ := key
+    exact ⟨s', by simp only [e, ok_bind, hK _ _ _ hfin], r⟩
+  | error e =>
+    cases e <;> simp only [hv] at key ⊢ <;> simp only [key, err_bind]
+
+set_option hygiene false in
+/-- the loop of `_parse_extras_list` for the given reading of the loop state -/
+local macro "extras_loop_with " inv:term ", " fin:term ", " hinit:term : tactic => `(tactic| (
+  refine el_wrapG $inv $fin _ ?step _ ?tail f (List.range (F + 1)) _ [t] _ m1 (by simpa using hf) $hinit r1
+  case tail =>
+    intro st a s hfin
+    obtain ⟨tok, rfl⟩ := hfin
+    tm_simp []
+  case step =>
+    intro i st acc s m hinv h
+    obtain ⟨tok, rfl⟩ := hinv
+    obtain ⟨s1, e1, r1⟩ := consume_ws h
+    simp only [chk_req, peekR_chk]
+    tm_simp [e1, check_peek r1 rule_IDENTIFIER]
+    cases hp : (chk (.req .identifier) (Req.ws m)).isSome
+    case true => tm_simp []
+    case false =>
+      tm_simp []
+      cases h2 : chk (.req .comma) (Req.ws m) with
+      | none =>
+        tm_simp [check_none r1 rule_COMMA h2]
+        exact ⟨_, _, rfl, ⟨_, rfl⟩, r1⟩
+      | some w =>
+        obtain ⟨c, m2⟩ := w
+        obtain ⟨s3, e3, r3⟩ := consume_ws (adv_rel r1 h2)
+        tm_simp [check_some r1 rule_COMMA h2, e3]
+        cases h3 : chk (.req .identifier) (Req.ws m2) with
+        | none => tm_simp [expect_none r3 rule_IDENTIFIER h3]
+        | some u =>
+          obtain ⟨t, m3⟩ := u
+          tm_simp [expect_some r3 rule_IDENTIFIER h3, strs, strs_append]
+          exact ⟨_, _, rfl, ⟨_, rfl⟩, adv_rel r3 h3⟩))
+
 theorem extras_list_fuel (F : Nat) (s : PyTok.St) (m : Mk.St) (h : TokRel s m) (f : Nat) (hf : f ≤ F + 1) :
     AgreesR strs (Gen.PySrc._parse_extras_list__fuel (F + 1)) s (Req.parseExtrasList f m) := by
   rw [agreesR_run]
@@ -682,33 +888,13 @@ theorem extras_list_fuel (F : Nat) (s : PyTok.St) (m : Mk.St) (h : TokRel s m) (
     obtain ⟨t, m1⟩ := v
     have r1 := adv_rel h h0
     tm_simp [check_some h rule_IDENTIFIER h0, List.nil_append]
-    refine el_wrap _ ?step _ ?tail f (List.range (F + 1)) .unbound [t] _ m1 (by simpa using hf) r1
-    case tail =>
-      intro tok a s
-      tm_simp []
-    case step =>
-      intro i tok acc s m h
-      obtain ⟨s1, e1, r1⟩ := consume_ws h
-      simp only [chk_req, peekR_chk]
-      tm_simp [e1, check_peek r1 rule_IDENTIFIER]
-      cases hp : (chk (.req .identifier) (Req.ws m)).isSome
-      case true => tm_simp []
-      case false =>
-        tm_simp []
-        cases h2 : chk (.req .comma) (Req.ws m) with
-        | none =>
-          tm_simp [check_none r1 rule_COMMA h2]
-          exact ⟨_, rfl, r1⟩
-        | some w =>
-          obtain ⟨c, m2⟩ := w
-          obtain ⟨s3, e3, r3⟩ := consume_ws (adv_rel r1 h2)
-          tm_simp [check_some r1 rule_COMMA h2, e3]
-          cases h3 : chk (.req .identifier) (Req.ws m2) with
-          | none => tm_simp [expect_none r3 rule_IDENTIFIER h3]
-          | some u =>
-            obtain ⟨t, m3⟩ := u
-            tm_simp [expect_some r3 rule_IDENTIFIER h3, strs, strs_append]
-            exact ⟨_, _, rfl, adv_rel r3 h3⟩
+    first
+    | -- `break` out of `while True`, `return extras` after the loop: state `(extra_token, extras, done)`
+      extras_loop_with (fun st acc => ∃ tok, st = (tok, strs acc, false)), (fun st a => ∃ tok, st = (tok, strs a, true)),
+        ⟨_, rfl⟩
+    | -- x8: `return extras` inside the loop: state `(returned value, extra_token, extras)`
+      extras_loop_with (fun st acc => ∃ tok, st = ((none : Option PyVal), tok, strs acc)),
+        (fun st a => ∃ tok, st = (some (strs a), tok, strs a)), ⟨_, rfl⟩
 
 
 theorem pel_any (f F : Nat) (m : Mk.St) (h : Req.parseExtrasList f m ≠ .error .fuel) (hF : m.rest.length < F) :
@@ -1023,10 +1209,17 @@ theorem requirement_details_any (hM : MarkerParserAgrees) (s : PyTok.St) (m : Mk
     case false =>
       tm_simp []
       rw [map_bind]
-      refine agreesRun_bind ((agreesR_run _ _ _ _).1 (requirement_marker_any hM _ _ r2 f _ _)) ?_
-      intro l m4 s4 r4
-      tm_simp []
-      exact agreesRun_ok (view := detView) (a := ([], spec, some l)) r4
+      -- x8: the `after` text may be chosen by an `if` statement around the call (the marker parser agrees for every text)
+      first
+      | (refine agreesRun_bind ((agreesR_run _ _ _ _).1 (requirement_marker_any hM _ _ r2 f _ _)) ?_
+         intro l m4 s4 r4
+         tm_simp []
+         exact agreesRun_ok (view := detView) (a := ([], spec, some l)) r4)
+      | (split <;>
+         (refine agreesRun_bind ((agreesR_run _ _ _ _).1 (requirement_marker_any hM _ _ r2 f _ _)) ?_
+          intro l m4 s4 r4
+          tm_simp []
+          exact agreesRun_ok (view := detView) (a := ([], spec, some l)) r4))
 
 
 theorem unpack3_tuple (a b c : PyVal) : unpack3 (.tuple [a, b, c]) = .ok (a, b, c) := by rfl
